@@ -135,7 +135,7 @@ pub fn run(ctx: &mut Ctx) {
     let mut mstrict = Cfg::strict();
     mstrict.max_size = MaxSize::Limit(1 << 16);
     // documents x all subsets of present masters
-    let p = DocParams { max_nodes: ctx.tier.pick(5, 6), globals: vec![ID_TAG, ID_VOID], exclude: vec![], unknown_subsets: true, devs: 0, payload_classes: false, big_payloads: false, noncanonical: false, width_devs: false, extras: true };
+    let p = DocParams { max_nodes: ctx.tier.pick(5, 6), globals: vec![ID_TAG, ID_VOID], exclude: vec![], unknown_subsets: true, devs: 0, payload_classes: false, big_payloads: false, noncanonical: false, width_devs: false, extras: true, all_widths: false };
     docs::for_each_doc(ctx, &rs, &p, &mut |ctx, doc| {
         let (bytes, lay) = ref_encode(doc);
         let present = masters_present(doc);
